@@ -53,7 +53,7 @@ def native_replay(d, name, vals):
         return False, "accepted=%s bits=%s" % (accepted, r[2])
     if kind == "range":
         mn, mx = kanirun.le(vals[0]), kanirun.le(vals[1])
-        size = 2 if tyname == "u8" else 3
+        size = {"u8": 2, "u16": 3, "u32": 2, "u64": 3, "usize": 1}[tyname]
         t = int_ty(tyname)
         r = d.req("lit", "r", mn, mx, tyname, size)
         if r[0] == "panic":
@@ -91,6 +91,9 @@ def run(ctx):
     total_checks = 0
     ok = 0
     d = drvmod.Driver()
+    failing = [n for n in names if res.get(n, {}).get("status") == "FAILED" and not res[n].get("timed_out")
+               and not any("unwinding assertion" in c for c in res[n]["failed_checks"])]
+    cexs = kanirun.playback_many(failing, ["-Z", "stubbing"], jobs=ctx.get("jobs", 8)) if failing else {}
     for n in names:
         r = res.get(n)
         if r is None or r["status"] not in ("SUCCESSFUL", "FAILED"):
@@ -109,8 +112,7 @@ def run(ctx):
         if any("unwinding assertion" in c for c in r["failed_checks"]):
             errors.append("harness %s: unwinding bound too small (%s)" % (n, r["failed_checks"][:2]))
             continue
-        c2, out2 = kanirun.kani(["-Z", "stubbing", "--harness", n, "-Z", "concrete-playback", "--concrete-playback=print"], timeout=900)
-        vals = kanirun.playback_values(out2)
+        vals = cexs.get(n, [])
         try:
             rep, desc = native_replay(d, n, vals)
         except Exception as e:
